@@ -53,7 +53,7 @@ def build(P, g, fam):
 
     DistanceEdge = distance_edge_class(g, np)
     e_cu = DistanceEdge([0, 1], np.array([[P.real("omC", lo=0.1, hi=5.0)]]), P.real("zC"))
-    graph = g.Graph([e_od, e_lm, e_cu], [v0, v1, v2])
+    graph = g.Graph([e_od, e_lm, e_cu], [v2, v0, v1])  # deliberately neither sorted by id nor by type
     return graph, [v0, v1, v2], [e_od, e_lm, e_cu]
 
 
@@ -264,9 +264,10 @@ def _optimize_real(fam):
             warnings.simplefilter("ignore")
             graph.optimize(tol=0.0, max_iter=1, fix_first_pose=True, verbose=False)
         after = snapshot(graph, verts, edges)
-        compare(P, "optimize", before, after, skip=(".pose", "v0.fixed"))
-        P.check("first_fixed", verts[0].fixed is True)
-        P.check_eq("fixed_pose", after["v0.pose"], before["v0.pose"])
+        k = verts.index(graph._vertices[0])  # the FIRST LISTED vertex (the list is deliberately not in id order)
+        compare(P, "optimize", before, after, skip=(".pose", "v%d.fixed" % k))
+        P.check("first_listed_fixed", verts[k].fixed is True)
+        P.check_eq("fixed_pose", after["v%d.pose" % k], before["v%d.pose" % k])
 
     return fn
 
